@@ -878,12 +878,12 @@ pub fn divide_u192_u64_inplace(numerator: &mut [u64], denominator: u64, quotient
         return;
     }
     // Create temporary space to store mutable copy of denominator.
-    let mut shifted_denominator = vec![0_u64; u64_count];
+    let mut shifted_denominator = vec![0_u64; 3];
     shifted_denominator[0] = denominator;
     // Shift denominator to bring MSB in alignment with MSB of numerator.
     let denominator_shift = numerator_bits - denominator_bits;
     left_shift_u192_inplace(&mut shifted_denominator, denominator_shift);
-    let mut difference = vec![0_u64; u64_count];
+    let mut difference = vec![0_u64; 3];
     denominator_bits += denominator_shift;
     // Perform bit-wise division algorithm.
     let mut remaining_shifts = denominator_shift;
